@@ -208,13 +208,6 @@ pub fn run_dispatch<N: AsRef<[Link]>>(
                 // If there was deadlock and the train is blocked, rewind and break
                 if has_deadlock && train_curr.is_blocked() {
                     train_curr.rewind(&mut link_disp_auths, &mut links_blocked, network);
-                    (has_deadlock, train_idx_begin) = check_deadlock(
-                        &mut train_disps,
-                        &links_blocked,
-                        train_idx_begin,
-                        train_idx_curr,
-                        false,
-                    )?;
                     #[cfg(feature = "verif-hooks")]
                     crate::verif_hooks::observe_dispatch(&crate::verif_hooks::DispatchView {
                         phase: crate::verif_hooks::DispatchPhase::AfterRewind,
@@ -223,6 +216,13 @@ pub fn run_dispatch<N: AsRef<[Link]>>(
                         links_blocked: &links_blocked,
                         train_disps: &train_disps,
                     });
+                    (has_deadlock, train_idx_begin) = check_deadlock(
+                        &mut train_disps,
+                        &links_blocked,
+                        train_idx_begin,
+                        train_idx_curr,
+                        false,
+                    )?;
                     assert!(
                         !has_deadlock,
                         "Train {:0width$} was rewound to the last known good position but there was still deadlock!",
